@@ -1,6 +1,6 @@
 (* C17 — property theorems.  Only statements, [exact lemma] and Print Assumptions. *)
 From Coq Require Import ZArith List Sorted.
-From FV Require Import C17.Model C17.Proofs C17.Closure C17.Idempotent C17.IndexMap.
+From FV Require Import C17.Model C17.Proofs C17.Closure C17.Idempotent C17.IndexMap C17.Gvar.
 Import ListNotations.
 Open Scope Z_scope.
 
@@ -170,6 +170,35 @@ Theorem c17_indexmap_entry_roundtrip : forall p inner_maps mx imap i i' o',
   im_unpack ibc (im_pack ibc o' i') = (o', i').
 Proof. exact indexmap_entry_roundtrip. Qed.
 
+(* gvar offsets (klippa gvar.rs): what is stored is read back exactly - long format for every 32-bit offset,
+   short format for every even offset <= 0x1FFFE *)
+Theorem c17_gvar_offsets_roundtrip : forall long off,
+  (long = true -> 0 <= off < 4294967296) ->
+  (long = false -> 0 <= off <= 131070 /\ Z.even off = true) ->
+  gv_read long (gv_stored long off) = off.
+Proof. exact gvar_offsets_roundtrip_l. Qed.
+(* the format decision is sufficient (after fixes 88e7b85 + 8b3457d, no side condition on the renumbering or on the
+   data lengths): short chosen => every offset even, <= 0x1FFFE, read back exactly; and the padded offsets cover
+   the data *)
+Theorem c17_gvar_format_choice_sufficient : forall lens retain notdef kept,
+  (forall g, 0 <= gv_len lens g) ->
+  gv_long lens retain notdef kept = false ->
+  forall i, let off := gv_end_offset false lens retain notdef kept i in
+            0 <= off <= 131070 /\ Z.even off = true
+            /\ gv_read false (gv_stored false off) = off.
+Proof. exact gvar_format_choice_sufficient_l. Qed.
+Theorem c17_gvar_short_covers_data : forall lens retain notdef kept i, (forall g, 0 <= gv_len lens g) ->
+  gv_end_offset true lens retain notdef kept i <= gv_end_offset false lens retain notdef kept i.
+Proof. exact gvar_short_covers_data_l. Qed.
+(* the rule before the fixes (size summed over the NEW ids, no padding) was refuted by two witnesses *)
+Theorem c17_gvar_old_rule_refuted :
+  (exists lens kept i, old_size_estimate lens false false kept <= 131070
+      /\ 131070 < gv_end_offset true lens false false kept i
+      /\ gv_read false (gv_stored false (gv_end_offset true lens false false kept i)) <> gv_end_offset true lens false false kept i)
+  /\ (exists lens kept i, old_size_estimate lens true true kept <= 131070
+      /\ gv_read false (gv_stored false (gv_end_offset true lens true true kept i)) <> gv_end_offset true lens true true kept i).
+Proof. exact gvar_old_rule_refuted_l. Qed.
+
 Print Assumptions c17_closure_contains_requested.
 Print Assumptions c17_closure_component_closed.
 Print Assumptions c17_closure_component_closed_partial.
@@ -188,3 +217,7 @@ Print Assumptions c17_indexmap_pack_roundtrip.
 Print Assumptions c17_indexmap_pack_fits_width.
 Print Assumptions c17_indexmap_inner_bits_cover.
 Print Assumptions c17_indexmap_entry_roundtrip.
+Print Assumptions c17_gvar_offsets_roundtrip.
+Print Assumptions c17_gvar_format_choice_sufficient.
+Print Assumptions c17_gvar_short_covers_data.
+Print Assumptions c17_gvar_old_rule_refuted.
